@@ -8,8 +8,9 @@
 //! canonical report (manifest content, validation state and validation codes). For streams without a magic number
 //! (SVG, .c2pa, garbage) only "no panic" is demanded.
 //!
-//! Mutants caught (tools/mutant_run.sh B ... C11 quick):
-//!   /verif/mutants/C11-prefer-hint.diff   (format_from_stream returns the hint whenever the hint is a known format)
+//! Mutants caught (quick tier, unchanged tree: 0 violations):
+//!   /verif/mutants/C11-prefer-hint.diff (format_from_stream returns the hint whenever the hint names a known format):
+//!       2000+ violations, keys `hint-changes-result container=<c> kind=<k> hint-family=<f>`
 
 use std::io::Cursor;
 
